@@ -46,6 +46,7 @@ func runC12(c *eng.Ctx) {
 	runAgedProcess(c, "C12", next)
 	runC12CreateVsClose(c, next)
 	core.RunFuncDisposables(c, "C12", next)
+	core.RunReadyValueCloseErrors(c, next)
 	nCases := c.Pick(120, 3000)
 	for k := 0; k < nCases; k++ {
 		idx, mine := next()
